@@ -59,6 +59,8 @@ pub struct Ctx {
     pub tier: Tier,
     pub seed: u64,
     pub replay: Option<(String, u64)>,
+    /// worker mode: (universe, lo, hi, progress file)
+    pub worker: Option<(String, u64, u64, String)>,
     pub threads: usize,
     start: Instant,
     deadline: Instant,
@@ -174,6 +176,7 @@ impl Ctx {
             _ => Tier::Quick,
         };
         let mut replay_path = None;
+        let mut worker = None;
         let mut args = std::env::args().skip(1);
         while let Some(a) = args.next() {
             match a.as_str() {
@@ -186,6 +189,13 @@ impl Ctx {
                 "quick" => tier = Tier::Quick,
                 "thorough" => tier = Tier::Thorough,
                 "--replay" => replay_path = args.next(),
+                "--worker" => {
+                    let name = args.next().unwrap_or_default();
+                    let lo = args.next().and_then(|x| x.parse().ok()).unwrap_or(0);
+                    let hi = args.next().and_then(|x| x.parse().ok()).unwrap_or(0);
+                    let pf = args.next().unwrap_or_default();
+                    worker = Some((name, lo, hi, pf));
+                }
                 _ => {}
             }
         }
@@ -244,6 +254,7 @@ impl Ctx {
             tier,
             seed,
             replay,
+            worker,
             threads,
             start,
             deadline: start + Duration::from_secs(cap_s),
@@ -300,6 +311,11 @@ impl Ctx {
         }
     }
 
+    /// (violation counts per class, evaluated cases) — for self-tests.
+    pub fn class_summary(&self) -> (BTreeMap<String, u64>, u64) {
+        (self.class_counts.lock().unwrap().clone(), self.evals.load(Ordering::Relaxed))
+    }
+
     pub fn machinery_error(&self, s: String) {
         self.machinery_errors.lock().unwrap().push(s);
     }
@@ -316,6 +332,9 @@ impl Ctx {
     where
         F: Fn(u64, &mut Local<'_>) + Sync,
     {
+        if self.worker.is_some() {
+            return;
+        }
         let (lo, hi) = match &self.replay {
             Some((u, i)) if u == name => (*i, (*i + 1).min(total)),
             Some(_) => return,
@@ -416,6 +435,10 @@ impl Ctx {
 
     /// Write evidence, print verdict lines, exit.
     pub fn finish(self) -> ! {
+        if self.worker.is_some() {
+            eprintln!("MACHINERY: worker reached finish() — unknown universe name");
+            std::process::exit(3);
+        }
         let root = verif_root();
         let wall = self.start.elapsed().as_secs_f64();
         let violations = self.violations.lock().unwrap().clone();
@@ -632,4 +655,277 @@ pub fn unrank(mut idx: u64, radices: &[u64], digits: &mut [u64]) {
 
 pub fn product(radices: &[u64]) -> u64 {
     radices.iter().product()
+}
+
+// ------------------------------------------------------------------------------------------------
+// Isolated universes: every batch of cases runs in a worker subprocess (address-space limit,
+// per-case wall-clock deadline); a dead or late worker pins the culprit case and is restarted
+// behind it. Used where "returns normally" is the property (C05, C06).
+
+fn esc_line(s: &str) -> String {
+    s.replace('\\', "\\\\").replace('\n', "\\n").replace('\t', "\\t")
+}
+
+fn unesc_line(s: &str) -> String {
+    let mut out = String::with_capacity(s.len());
+    let mut it = s.chars();
+    while let Some(c) = it.next() {
+        if c == '\\' {
+            match it.next() {
+                Some('n') => out.push('\n'),
+                Some('t') => out.push('\t'),
+                Some('\\') => out.push('\\'),
+                Some(o) => {
+                    out.push('\\');
+                    out.push(o);
+                }
+                None => out.push('\\'),
+            }
+        } else {
+            out.push(c);
+        }
+    }
+    out
+}
+
+impl Ctx {
+    /// Like [`Ctx::universe`] but every case runs inside a worker subprocess with an address-space
+    /// limit of `mem_mib` and a wall-clock deadline of `case_secs` per case. Abnormal worker death
+    /// is a violation of class `abort`, a missed deadline one of class `hang`, attributed to the
+    /// case that was running.
+    pub fn universe_isolated<F>(&self, name: &str, total: u64, case_secs: f64, mem_mib: u64, body: F)
+    where
+        F: Fn(u64, &mut Local<'_>) + Sync,
+    {
+        use std::io::Write;
+        use std::os::unix::fs::FileExt;
+
+        // ---- worker side
+        if let Some((wname, lo, hi, pf)) = &self.worker {
+            if wname != name {
+                return;
+            }
+            let file = fs::OpenOptions::new().write(true).create(true).truncate(false).open(pf).ok();
+            let started = std::sync::Arc::new((AtomicU64::new(u64::MAX), AtomicU64::new(0)));
+            {
+                let started = started.clone();
+                let t0 = self.start;
+                let limit = case_secs;
+                std::thread::spawn(move || loop {
+                    std::thread::sleep(Duration::from_millis(50));
+                    let idx = started.0.load(Ordering::Acquire);
+                    if idx == u64::MAX {
+                        continue;
+                    }
+                    let since = started.1.load(Ordering::Acquire);
+                    let now = t0.elapsed().as_millis() as u64;
+                    if now.saturating_sub(since) as f64 > limit * 1000.0 {
+                        // re-check that the same case is still running
+                        if started.0.load(Ordering::Acquire) == idx {
+                            println!("WORKER-HANG\t{idx}");
+                            let _ = std::io::stdout().flush();
+                            std::process::exit(97);
+                        }
+                    }
+                });
+            }
+            let mut l = Local {
+                ctx: self,
+                universe: name,
+                idx: 0,
+                total,
+                evals: 0,
+                transitions: 0,
+                states: 0,
+                nontrivial: 0,
+                traces: 0,
+                case_nontrivial: false,
+            };
+            let out = std::io::stdout();
+            for i in *lo..*hi {
+                if let Some(f) = &file {
+                    let _ = f.write_all_at(&i.to_le_bytes(), 0);
+                }
+                started.1.store(self.start.elapsed().as_millis() as u64, Ordering::Release);
+                started.0.store(i, Ordering::Release);
+                l.idx = i;
+                l.case_nontrivial = false;
+                let r = panic::catch_unwind(AssertUnwindSafe(|| body(i, &mut l)));
+                if r.is_err() {
+                    let msg = LAST_PANIC.with(|p| p.borrow_mut().take()).unwrap_or_else(|| "panic".to_owned());
+                    l.violation("panic", || format!("panic inside case: {msg}"));
+                }
+                l.evals += 1;
+                if l.case_nontrivial {
+                    l.nontrivial += 1;
+                }
+            }
+            started.0.store(u64::MAX, Ordering::Release);
+            let mut o = out.lock();
+            for v in self.violations.lock().unwrap().iter() {
+                let _ = writeln!(o, "WORKER-VIOLATION\t{}\t{}\t{}", v.class, v.idx, esc_line(&v.msg));
+            }
+            for (c, n) in self.class_counts.lock().unwrap().iter() {
+                let _ = writeln!(o, "WORKER-CLASS\t{c}\t{n}");
+            }
+            for sm in self.samples.lock().unwrap().iter() {
+                let t = match sm {
+                    J::Str(t) => t.clone(),
+                    other => other.render(),
+                };
+                let _ = writeln!(o, "WORKER-SAMPLE\t{}", esc_line(t.trim_end()));
+            }
+            let _ = writeln!(o, "WORKER-DONE\t{}\t{}\t{}\t{}\t{}", l.evals, l.transitions, l.states, l.nontrivial, l.traces);
+            let _ = o.flush();
+            std::process::exit(0);
+        }
+
+        // ---- replay: run the single case in-process
+        if let Some((u, i)) = &self.replay {
+            if u == name {
+                self.universe_inproc(name, total, *i, (*i + 1).min(total), &body);
+            }
+            return;
+        }
+
+        // ---- parent side
+        let exe = std::env::current_exe().expect("current_exe");
+        let next = AtomicU64::new(0);
+        let done = AtomicU64::new(0);
+        let capped = AtomicBool::new(false);
+        let chunk = (total / (self.threads as u64 * 8)).clamp(1, 20_000);
+        let tmp = verif_root().join("target").join("worker-progress");
+        let _ = fs::create_dir_all(&tmp);
+        std::thread::scope(|s| {
+            for t in 0..self.threads {
+                let (next, done, capped, exe, tmp) = (&next, &done, &capped, &exe, &tmp);
+                s.spawn(move || {
+                    let pf = tmp.join(format!("{}-{}-{t}.idx", self.id, std::process::id()));
+                    loop {
+                        if Instant::now() >= self.deadline {
+                            capped.store(true, Ordering::Relaxed);
+                            break;
+                        }
+                        let a = next.fetch_add(chunk, Ordering::Relaxed);
+                        if a >= total {
+                            break;
+                        }
+                        let b = (a + chunk).min(total);
+                        let mut lo = a;
+                        while lo < b {
+                            let _ = fs::write(&pf, u64::MAX.to_le_bytes());
+                            let script = format!("ulimit -v {}; exec \"$0\" \"$@\"", mem_mib * 1024);
+                            let outp = std::process::Command::new("sh")
+                                .arg("-c")
+                                .arg(&script)
+                                .arg(exe)
+                                .args(["--tier", self.tier.name(), "--worker", name, &lo.to_string(), &b.to_string()])
+                                .arg(&pf)
+                                .env("VERIF_THREADS", "1")
+                                .stderr(std::process::Stdio::null())
+                                .output();
+                            let Ok(outp) = outp else {
+                                self.machinery_error(format!("cannot spawn worker for {name} [{lo},{b})"));
+                                return;
+                            };
+                            let text = String::from_utf8_lossy(&outp.stdout);
+                            let mut finished = false;
+                            let mut hang_idx = None;
+                            for line in text.lines() {
+                                let mut f = line.split('\t');
+                                match f.next() {
+                                    Some("WORKER-VIOLATION") => {
+                                        let class = f.next().unwrap_or("").to_owned();
+                                        let idx = f.next().and_then(|x| x.parse().ok()).unwrap_or(0);
+                                        let msg = unesc_line(f.next().unwrap_or(""));
+                                        let mut v = self.violations.lock().unwrap();
+                                        if v.iter().filter(|x| x.class == class).count() < 8 {
+                                            v.push(Violation { class, universe: name.to_owned(), idx, msg });
+                                        }
+                                    }
+                                    Some("WORKER-CLASS") => {
+                                        let class = f.next().unwrap_or("").to_owned();
+                                        let n: u64 = f.next().and_then(|x| x.parse().ok()).unwrap_or(0);
+                                        self.n_violations.fetch_add(n, Ordering::Relaxed);
+                                        *self.class_counts.lock().unwrap().entry(class).or_insert(0) += n;
+                                    }
+                                    Some("WORKER-SAMPLE") => self.add_sample(J::s(unesc_line(f.next().unwrap_or("")))),
+                                    Some("WORKER-HANG") => hang_idx = f.next().and_then(|x| x.parse::<u64>().ok()),
+                                    Some("WORKER-DONE") => {
+                                        let n: Vec<u64> = f.filter_map(|x| x.parse().ok()).collect();
+                                        if n.len() == 5 {
+                                            self.evals.fetch_add(n[0], Ordering::Relaxed);
+                                            self.transitions.fetch_add(n[1], Ordering::Relaxed);
+                                            self.states.fetch_add(n[2], Ordering::Relaxed);
+                                            self.nontrivial.fetch_add(n[3], Ordering::Relaxed);
+                                            self.traces.fetch_add(n[4], Ordering::Relaxed);
+                                            finished = true;
+                                        }
+                                    }
+                                    _ => {}
+                                }
+                            }
+                            if finished && outp.status.success() {
+                                lo = b;
+                                continue;
+                            }
+                            // abnormal end: pin the culprit
+                            let culprit = hang_idx.or_else(|| {
+                                fs::read(&pf).ok().and_then(|bytes| bytes.get(..8).map(|x| u64::from_le_bytes(x.try_into().unwrap()))).filter(|x| *x != u64::MAX)
+                            });
+                            let Some(c) = culprit.filter(|c| *c >= lo && *c < b) else {
+                                self.machinery_error(format!("worker for {name} [{lo},{b}) died ({:?}) without a usable progress record", outp.status));
+                                return;
+                            };
+                            let (class, what) = if hang_idx.is_some() {
+                                ("hang", format!("case did not return within {case_secs} s"))
+                            } else {
+                                ("abort", format!("worker process died: {:?} (address-space limit {mem_mib} MiB)", outp.status))
+                            };
+                            // describe the case by running the body's sample hook is not possible here; the replay re-executes it
+                            self.n_violations.fetch_add(1, Ordering::Relaxed);
+                            *self.class_counts.lock().unwrap().entry(class.to_owned()).or_insert(0) += 1;
+                            {
+                                let mut v = self.violations.lock().unwrap();
+                                if v.iter().filter(|x| x.class == class).count() < 8 {
+                                    v.push(Violation { class: class.to_owned(), universe: name.to_owned(), idx: c, msg: format!("{what}\n(the cases before index {c} of this batch completed; replaying re-executes the case in-process)") });
+                                }
+                            }
+                            // counts of the cases before the culprit are lost with the worker; count them as evaluated
+                            self.evals.fetch_add(c - lo + 1, Ordering::Relaxed);
+                            lo = c + 1;
+                        }
+                        done.fetch_add(b - a, Ordering::Relaxed);
+                    }
+                    let _ = fs::remove_file(&pf);
+                });
+            }
+        });
+        self.universes.lock().unwrap().push((
+            name.to_owned(),
+            UniverseStat { total, done: done.load(Ordering::Relaxed), capped: capped.load(Ordering::Relaxed), note: format!("isolated: worker subprocesses, {case_secs} s per case, {mem_mib} MiB address space") },
+        ));
+    }
+
+    fn universe_inproc<F>(&self, name: &str, total: u64, lo: u64, hi: u64, body: &F)
+    where
+        F: Fn(u64, &mut Local<'_>) + Sync,
+    {
+        let mut l = Local { ctx: self, universe: name, idx: 0, total, evals: 0, transitions: 0, states: 0, nontrivial: 0, traces: 0, case_nontrivial: false };
+        for i in lo..hi {
+            l.idx = i;
+            l.case_nontrivial = false;
+            let r = panic::catch_unwind(AssertUnwindSafe(|| body(i, &mut l)));
+            if r.is_err() {
+                let msg = LAST_PANIC.with(|p| p.borrow_mut().take()).unwrap_or_else(|| "panic".to_owned());
+                l.violation("panic", || format!("panic inside case: {msg}"));
+            }
+            l.evals += 1;
+            if l.case_nontrivial {
+                l.nontrivial += 1;
+            }
+        }
+        l.flush();
+        self.universes.lock().unwrap().push((name.to_owned(), UniverseStat { total, done: hi - lo, capped: false, note: "replay".into() }));
+    }
 }
